@@ -3,6 +3,7 @@ package main
 import (
 	"bytes"
 	"fmt"
+	"sort"
 
 	"github.com/openacid/low/bitstr"
 )
@@ -16,6 +17,7 @@ func c09New(a []V, k int) []byte {
 
 func init() {
 	Exec["bitstr.New"] = func(a []V) string { return Bytes(c09New(a, 0)) }
+	Exec["bitstr.New/decode"] = func(a []V) string { return Bytes(c09New(a, 0)) }
 	Exec["bitstr.Len"] = func(a []V) string { return I32(bitstr.Len(c09New(a, 0))) }
 	Exec["bitstr.Cmp"] = func(a []V) string {
 		return Int(bitstr.Cmp(c09New(a, 0), c09New(a, 3)))
@@ -39,6 +41,27 @@ func init() {
 		same := xs == string(x) && bytes.Equal(e, ec)
 		r2 := bitstr.CmpUpto(x, e)
 		return L(Int(r1), Int(r2), B(same))
+	}
+	// WIDENED: [CmpUpto(a, e), Cmp(New(a, 0, min(8*len(a), Len(e))), e)]
+	Exec["bitstr.CmpUpto/viaNew"] = func(a []V) string {
+		x := a[0].Bytes()
+		e := c09New(a, 1)
+		r1 := bitstr.CmpUpto(x, e)
+		m := bitstr.Len(e)
+		if int32(8*len(x)) < m {
+			m = int32(8 * len(x))
+		}
+		r2 := bitstr.Cmp(bitstr.New(string(x), 0, m), e)
+		return L(Int(r1), Int(r2))
+	}
+	// WIDENED: [CmpUpto(k, e) for k in keys] (the generator emits keys sorted by bytes.Compare)
+	Exec["bitstr.CmpUpto/sorted"] = func(a []V) string {
+		e := c09New(a, 1)
+		var out []int
+		for _, k := range a[0].L {
+			out = append(out, bitstr.CmpUpto(k.Bytes(), e))
+		}
+		return Ints(out)
 	}
 	Register("C09", genC09)
 }
@@ -87,6 +110,13 @@ func c09Rel(a, b []byte) string {
 	return "rprefix"
 }
 
+func c09Max(a, b int) int {
+	if a > b {
+		return a
+	}
+	return b
+}
+
 func c09PayClass(nbits int) string {
 	nb := (nbits + 7) / 8
 	switch {
@@ -108,6 +138,11 @@ func genC09(g *Gen) {
 			key = fmt.Sprintf("new/tmod%d/fal%v/empty%v/bytes%s", r.t%8, r.f%8 == 0, r.f == r.t, c08LenClass((r.t-r.f/8*8+7)/8))
 		}
 		g.Do("bitstr.New", L(r.args()), key)
+		if key != "" {
+			g.Do("bitstr.New/decode", L(r.args()), "dec/"+key)
+		} else {
+			g.Do("bitstr.New/decode", L(r.args()), "")
+		}
 		if key != "" {
 			key = "len/" + key
 		}
@@ -151,6 +186,56 @@ func genC09(g *Gen) {
 			key = "str" + key
 		}
 		g.Do("bitstr.StrCmpUpto", args, key)
+		if key != "" {
+			key = "via" + key[3:]
+		}
+		g.Do("bitstr.CmpUpto/viaNew", args, key)
+	}
+	// keys sorted by bytes.Compare against one bit string: shape key = how many keys fall before / inside / after the block
+	cnt := func(n int) string {
+		switch {
+		case n == 0:
+			return "0"
+		case n == 1:
+			return "1"
+		}
+		return "n"
+	}
+	sorted := func(keys [][]byte, r c09Range, bucket string) {
+		g.Stat(bucket)
+		sort.Slice(keys, func(i, j int) bool { return bytes.Compare(keys[i], keys[j]) < 0 })
+		b := r.bitsOf()
+		var lt, eq, gt int
+		for _, k := range keys {
+			ab := c09Bits(k)
+			if len(ab) > len(b) {
+				ab = ab[:len(b)]
+			}
+			switch rel := c09Rel(ab, b); {
+			case rel == "eq":
+				eq++
+			case rel == "prefix":
+				lt++
+			case rel == "rprefix":
+				gt++ // cannot happen (ab is cut to len(b)); kept for completeness
+			default:
+				// first differing bit decides
+				d := 0
+				for ab[d] == b[d] {
+					d++
+				}
+				if ab[d] < b[d] {
+					lt++
+				} else {
+					gt++
+				}
+			}
+		}
+		key := ""
+		if len(b) > 0 && len(keys) > 1 {
+			key = fmt.Sprintf("sorted/lt%s/eq%s/gt%s/tmod0%v/pay%s", cnt(lt), cnt(eq), cnt(gt), len(b)%8 == 0, c09PayClass(len(b)))
+		}
+		g.Do("bitstr.CmpUpto/sorted", L(ByteSlices(keys), r.args()), key)
 	}
 
 	// (1) all strings of length <= 2 over the 7-byte alphabet x (f, t); quick: f in a boundary set
@@ -222,6 +307,16 @@ func genC09(g *Gen) {
 	if g.Thorough {
 		g.Exhaust = append(g.Exhaust, "CmpUpto, StrCmpUpto: all plain strings of length 0..2 over the alphabet x the 449 bit strings of length 0..16")
 	}
+
+	// all plain strings of length <= 2 over the alphabet, sorted, against every one of those bit strings
+	for _, e := range encs {
+		keys := make([][]byte, 0, len(strs2))
+		for _, k := range strs2 {
+			keys = append(keys, append([]byte{}, k...))
+		}
+		sorted(keys, e, "exh-sorted")
+	}
+	g.Exhaust = append(g.Exhaust, "CmpUpto over sorted keys: the 57 plain strings of length 0..2 over the alphabet (sorted) x the 449 bit strings of length 0..16")
 
 	// (2) random pairs sharing prefixes; payload lengths 0..20 bytes (both sides of cmpBytes' 8-byte switch)
 	np := g.N(5000, 120000)
@@ -360,5 +455,96 @@ func genC09(g *Gen) {
 			a = g.R.Bytes(g.R.Range(0, 20), al)
 		}
 		upto(a, r1, "rand-upto")
+
+		// a sorted key set around r1's bit string: the bytes r1 starts at, cut, extended and perturbed
+		if q%4 == 1 {
+			nk := g.R.Range(2, 10)
+			var keys [][]byte
+			for j := 0; j < nk; j++ {
+				k := append([]byte{}, base...)
+				switch g.R.Intn(6) {
+				case 0: // cut somewhere
+					k = k[:g.R.Intn(len(k)+1)]
+				case 1: // cut at / around the payload length and extended
+					if nb <= len(k) {
+						k = append(k[:g.R.Range(c09Max(0, nb-1), nb)], g.R.Bytes(g.R.Range(0, 3), al)...)
+					}
+				case 2: // one bit flipped inside the payload bytes
+					if nb > 0 {
+						p := g.R.Intn(8 * nb)
+						k[p/8] ^= 0x80 >> uint(p%8)
+					}
+				case 3: // flipped right after / at bit t (still inside the block / just outside)
+					p := t1 - f1/8*8 - g.R.Intn(2)
+					if p >= 0 && p < 8*len(k) {
+						k[p/8] ^= 0x80 >> uint(p%8)
+					}
+				case 4: // same payload, different tail
+					if nb <= len(k) {
+						k = append(k[:nb], g.R.Bytes(g.R.Range(0, 4), al)...)
+					}
+				default:
+					k = g.R.Bytes(g.R.Range(0, 12), al)
+				}
+				keys = append(keys, k)
+			}
+			sorted(keys, r1, "rand-sorted")
+		}
 	}
+
+	// (3) structured sweep aimed at cmpBytes' manual loop / bytes.Compare switch and at CmpUpto's stages:
+	// payload byte lengths 1..12 x last-byte fill x position of the single differing byte x which bit x
+	// length of a (just past the difference, one short of / equal to / one past the payload)
+	sweep := []byte("\x61\x00\x7f\x80\xff\x62\x01\x61\x7f\x80\x00\xff\x62\x61")
+	for n := 1; n <= 12; n++ {
+		s := append([]byte{}, sweep[:n]...)
+		for _, t := range []int{8 * n, 8*n - 3, 8*n - 7} {
+			r := c09Range{s, 0, t}
+			for _, la := range []int{n - 1, n, n + 1} {
+				upto(append([]byte{}, sweep[:la]...), r, "sweep-upto-eq")
+			}
+			for i := 0; i < n; i++ {
+				for _, m := range []byte{0x80, 0x01} {
+					a := append([]byte{}, sweep[:n+1]...)
+					a[i] ^= m
+					for _, la := range []int{i + 1, n - 1, n, n + 1} {
+						if la > i && la <= len(a) {
+							upto(append([]byte{}, a[:la]...), r, "sweep-upto-diff")
+						}
+					}
+					// the same pair as two bit strings, cut at the same and at different places
+					for _, t2 := range []int{8 * n, 8*n - 3, 8 * (i + 1)} {
+						r2 := c09Range{append([]byte{}, a[:n]...), 0, t2}
+						cmp(r, r2, "sweep-cmp")
+						cmp(r2, r, "sweep-cmp")
+					}
+				}
+			}
+		}
+	}
+	// long strings (beyond any small fixed buffer): 17..40 payload bytes, difference late in the string
+	for _, n := range []int{16, 17, 24, 33, 40} {
+		long := make([]byte, n+1)
+		for i := range long {
+			long[i] = sweep[(i*5+n)%len(sweep)]
+		}
+		for _, t := range []int{8 * n, 8*n - 5} {
+			r := c09Range{append([]byte{}, long[:n]...), 0, t}
+			for _, i := range []int{7, 8, 15, 16, n - 2, n - 1} {
+				for _, m := range []byte{0x80, 0x01} {
+					a := append([]byte{}, long...)
+					a[i] ^= m
+					for _, la := range []int{i + 1, n - 1, n, n + 1} {
+						if la > i && la <= len(a) {
+							upto(append([]byte{}, a[:la]...), r, "sweep-upto-long")
+						}
+					}
+					r2 := c09Range{append([]byte{}, a[:n]...), 0, 8 * n}
+					cmp(r, r2, "sweep-cmp-long")
+					cmp(r2, r, "sweep-cmp-long")
+				}
+			}
+		}
+	}
+	g.Exhaust = append(g.Exhaust, "CmpUpto/StrCmpUpto/Cmp: payload lengths 1..12 bytes x to in {8n,8n-3,8n-7} x every position of a single differing byte (high/low bit) x len(a) in {i+1,n-1,n,n+1}")
 }
